@@ -127,6 +127,25 @@ func TestVerifMirror(t *testing.T) {
 		}
 		cases = append(cases, c)
 	}
+	// exporters the mirror target cannot be reached for (IPv6 sources, IPv4 target) first: the dispatcher must not
+	// park them for workers that do not exist (spec/MirrorDispatch.tla)
+	if flood, _ := strconv.Atoi(os.Getenv("VERIF_V6FLOOD")); flood > 0 {
+		raddr6 := &net.UDPAddr{IP: net.ParseIP("2001:db8::5"), Port: 40000}
+		for k := 0; k < flood; k++ {
+			switch proto {
+			case "ipfix":
+				b := ipfixBuffer.Get().([]byte)
+				ipfixUDPCh <- IPFIXUDPMsg{raddr6, b[:0]}
+			case "sflow":
+				b := sFlowBuffer.Get().([]byte)
+				sFlowUDPCh <- SFUDPMsg{raddr6, b[:0]}
+			}
+			if k%200 == 199 {
+				time.Sleep(5 * time.Millisecond) // the worker and the dispatcher keep up
+			}
+		}
+		time.Sleep(200 * time.Millisecond)
+	}
 	burst, _ := strconv.Atoi(os.Getenv("VERIF_BURST"))
 	if burst < 1 {
 		burst = 1
